@@ -344,6 +344,9 @@ func mkBVBin(op string, a, b *Term) *Term {
 		if b.IsConst() && b.K == 0 {
 			return a
 		}
+		if sameTerm(a, b) {
+			return mkBV(w, 0)
+		}
 	case "bvmul":
 		if a.IsConst() && a.K == 1 {
 			return b
